@@ -152,7 +152,7 @@ impl Property for C07 {
     fn assumptions(&self) -> Vec<&'static str> {
         vec![
             "the order of labels inside a sample is not prescribed by the model, only required to be identical in every rebuild",
-            "registry common-label names are disjoint from metric label names (the clash is C09's known finding)",
+            "a registry common label named like a metric's own label is applied like any other (that the sample then carries the name twice is C09's known finding, not a C07 matter)",
         ]
     }
     fn budget(&self, tier: Tier) -> Budget {
@@ -163,9 +163,13 @@ impl Property for C07 {
     }
 
     fn run(&self, src: &mut Src, rep: &mut Report) -> Verdict {
-        let s = gen_scenario(src, false);
+        let mut s = gen_scenario(src, false);
         if crate::scenario::collision_pair_blocks_registration(&s) {
             return Verdict::Discard("two metric names with equal 64-bit FNV-1a hash and equal constant-label values: the second registration is refused (known finding, see C15)");
+        }
+        // a sixth of the cases: one registry common label has the name of a label some collector uses itself
+        if src.chance(40) && crate::scenario::add_common_clash(src, &mut s) {
+            rep.class("common-label-named-like-an-own-label");
         }
         let mut names: Vec<&str> = s.colls.iter().map(|c| c.name.as_str()).collect();
         names.sort();
